@@ -17,31 +17,38 @@
 //	         same bytes into a fresh world, as ReadWorld does for a file list).
 //
 // Oracle, per merged world: its canonical dump (worldkit.DumpWorld over present
-// and absent IDs, tag queries, EachFeature) must equal
+// and absent IDs, tag queries, EachFeature, plus FeaturesByID.HasFeatureWithID
+// of the exported ID index loaded with the same files) is compared with
 //
-//	(a) the reference world (worldkit.Ref) of the union of what the files
-//	    hold, for the sections whose meaning the statement fixes: lookup by ID
-//	    (has/feat incl. tags, path points resolved through point IDs, polygons,
-//	    members), point locations, tag searches as ID-ordered duplicate-free
-//	    sequences, EachFeature;
+//	(a) an independent model of the union of what the files hold: the worldkit
+//	    reference world for lookup by ID (has/feat incl. tags, path points
+//	    resolved through point IDs, polygons, members), point locations, tag
+//	    searches as ID-ordered duplicate-free sequences and EachFeature; and,
+//	    for relations-by-feature and areas-by-point of present features, the
+//	    direct meaning one compact file gives them (relations having the
+//	    feature as a member; areas with a polygon given by a path through the
+//	    point) — the reference models the basic world's transitive closure;
 //	(b) the dump of the single-file compact build of the same union, for every
-//	    section (this adds relations-by-feature, areas-by-point, references and
-//	    Traverse, whose single-world answer is whatever one file gives).
+//	    section (this adds FindReferences and Traverse, whose single-world
+//	    answer is whatever one file gives).
 //
 // A section is a violation when the merged world differs from the single-file
-// world and (for (a)-sections) from the reference as well; if the single-file
-// world itself disagrees with the reference and the merged world agrees with
-// the single-file world, the merged world still "acts as one world": that is
-// counted (inherited-from-single-file) but is not a C17 violation.
+// world and (for (a)-sections) from the model as well. If the single-file
+// world itself disagrees with the model and the merged world agrees with the
+// single-file world, the merged world still "acts as one world": that is
+// counted (inherited-from-single-file) and not reported here. A FindReferences
+// difference for an ID whose relations/areas answer already differs is counted,
+// not reported twice.
 //
 // What a file holds: a build drops paths whose points cannot be found (in the
 // file or, for overlay builds, in the base) and areas whose paths are not in
 // the same file; that is by design and not part of this property. The kept set
 // is computed independently (worldkit.ValidSubset per file, base points
-// visible to overlay files). Partitions that lose a feature this way ("lossy")
-// are still checked, but only on the (a)-sections against the kept union,
-// because dangling references of dropped features legitimately show up in the
-// graph sections.
+// visible to overlay files). Partitions/build orders that lose a feature this
+// way ("lossy") are still checked, but only on the lookup/search sections
+// against the kept union (dangling references of dropped features
+// legitimately show up in the graph sections), and, for overlay builds, only
+// in the build order of the block labels, merged in that order.
 //
 // No ID is ever put into two files: the code has no defined behaviour for it
 // (FindFeatureByID answers from the first file merged, EachFeature emits both,
@@ -210,7 +217,7 @@ func buildSpace(tier string) (*space, string) {
 	if tier == "thorough" {
 		sels = []sel{
 			{quickWorlds, []string{"osm", "custom-small", "mixed-ns", "c17-late-ns", "custom-2^63", "custom-max", "osm-2^31"}},
-			{thoroughWorlds, []string{"osm", "custom-small", "mixed-ns", "c17-late-ns"}},
+			{thoroughWorlds, []string{"osm", "custom-small", "mixed-ns"}},
 		}
 	} else {
 		sels = []sel{{quickWorlds, quickSchemes}}
@@ -235,7 +242,7 @@ func buildSpace(tier string) (*space, string) {
 			desc = append(desc, fmt.Sprintf("%s(%d features, %d partitions) x {%s}", w.name, n, len(partitions(n, 3)), strings.Join(s.schemes, ",")))
 		}
 	}
-	bound := "menu worlds " + strings.Join(desc, "; ") + "; every set partition into 2 or 3 files; plain: every merge order; overlay: every build order x every merge order"
+	bound := "menu worlds " + strings.Join(desc, "; ") + "; every set partition into 2 or 3 files; plain: every merge order; overlay: every feature-keeping build order x every merge order (+ one lossy build order); universe = worldkit.Universe (9 menu IDs + 5 absent IDs), " + fmt.Sprint(len(queries)) + " tag queries"
 	return sp, bound
 }
 
@@ -376,12 +383,21 @@ var queries = []wk.RQ{
 }
 
 func refCovered(section string) bool {
-	for _, p := range []string{"has:", "feat:", "loc:point/", "find:", "each"} {
+	for _, p := range []string{"has:", "byid-has:", "feat:", "loc:point/", "find:", "each"} {
 		if strings.HasPrefix(section, p) {
 			return true
 		}
 	}
 	return false
+}
+
+// modelled: sections whose expected value comes from an independent model
+// (the worldkit reference, or directModel for rels/areas of present features,
+// which overwrites the reference's transitive answer). The remaining sections
+// of ExpectedDump (refs*, colls, rels/areas of absent IDs) follow the basic
+// world's transitive meaning and are compared with the single-file world only.
+func modelled(section string) bool {
+	return refCovered(section) || strings.HasPrefix(section, "rels:") || strings.HasPrefix(section, "areas:")
 }
 
 func dumpOptions(sch wk.IDScheme) *wk.DumpOptions {
@@ -664,6 +680,54 @@ func sectionOrder(s string) int {
 	return 1
 }
 
+// directModel adds the expected answers of the two "by feature" queries for
+// features that are present, with the meaning the compact world gives them in
+// one file (direct membership; the worldkit reference models the transitive
+// closure the basic world answers with): rels:<x> = relations with x as a
+// member; areas:<point> = areas with a polygon given by a path through the point.
+func directModel(want wk.Dump, union wk.Spec) {
+	for _, x := range union {
+		var rels []string
+		for _, r := range union {
+			if r.Kind != wk.KRelation {
+				continue
+			}
+			for _, m := range r.Members {
+				if m.ID == x.ID {
+					rels = append(rels, r.ID.String())
+					break
+				}
+			}
+		}
+		sort.Strings(rels)
+		want["rels:"+x.ID.String()] = strings.Join(rels, " ")
+		if x.Kind != wk.KPoint {
+			continue
+		}
+		var areas []string
+		for _, a := range union {
+			if a.Kind != wk.KArea {
+				continue
+			}
+			through := false
+			for _, p := range a.Polys {
+				for _, pid := range p.Paths {
+					if path := union.Find(pid); path != nil {
+						for _, ref := range path.Refs() {
+							through = through || ref == x.ID
+						}
+					}
+				}
+			}
+			if through {
+				areas = append(areas, a.ID.String())
+			}
+		}
+		sort.Strings(areas)
+		want["areas:"+x.ID.String()] = strings.Join(areas, " ")
+	}
+}
+
 // compare checks one merged world against the reference and the single-file world.
 func (cc *caseCtx) compare(mode, how string, w *compact.World, datas [][]byte, union wk.Spec, order []int) {
 	cc.r.Evals++
@@ -675,6 +739,14 @@ func (cc *caseCtx) compare(mode, how string, w *compact.World, datas [][]byte, u
 	want := ref.ExpectedDump(ids, queries, true, false)
 	for _, id := range ids {
 		want["byid-has:"+id.String()] = fmt.Sprint(ref.Has(id))
+	}
+	for s := range want {
+		if strings.HasPrefix(s, "rels:") || strings.HasPrefix(s, "areas:") {
+			delete(want, s) // transitive meaning of the basic world
+		}
+	}
+	if !lossy {
+		directModel(want, union)
 	}
 	single := cc.sp.single(cc.c, union)
 	if single.err != nil {
@@ -699,30 +771,31 @@ func (cc *caseCtx) compare(mode, how string, w *compact.World, datas [][]byte, u
 	explained := map[string]bool{} // IDs whose rels/areas answer already differs
 	for _, s := range sections {
 		g := got[s]
-		covered := refCovered(s)
-		if lossy && !covered {
+		if lossy && !refCovered(s) {
 			continue
 		}
 		sv, sok := single.dump[s]
 		if !sok {
 			continue
 		}
-		cmp := sv
-		if covered {
-			rv := want[s]
-			if g == rv {
-				if sv != rv {
-					cc.r.Count("single-file-differs-from-reference-but-merged-agrees-with-reference:"+wk.SectionClass(s), 1)
-				}
-				continue
-			}
-			if g == sv {
+		if g == sv {
+			if mv, ok := want[s]; ok && modelled(s) && g != mv {
 				cc.r.Count("inherited-from-single-file:"+wk.SectionClass(s), 1)
+			}
+			continue
+		}
+		cmp := sv
+		if mv, ok := want[s]; ok && modelled(s) {
+			if g == mv {
+				cc.r.Count("single-file-differs-from-model-but-merged-agrees-with-model:"+wk.SectionClass(s), 1)
 				continue
 			}
-			cmp = rv
-		} else if g == sv {
-			continue
+			if sv == mv {
+				cc.r.Count("sections-differing-from-model-and-single-file", 1)
+			} else {
+				cc.r.Count("sections-differing-from-model-and-single-file(which-disagree):"+wk.SectionClass(s), 1)
+			}
+			cmp = mv
 		}
 		bad++
 		sec := wk.SectionClass(s)
@@ -734,8 +807,8 @@ func (cc *caseCtx) compare(mode, how string, w *compact.World, datas [][]byte, u
 			continue
 		}
 		msg := fmt.Sprintf("%s: section %s\n    merged:      %s\n    single-file: %s", how, s, g, sv)
-		if covered {
-			msg += "\n    reference:   " + want[s]
+		if mv, ok := want[s]; ok && modelled(s) {
+			msg += "\n    model:       " + mv
 		}
 		cc.violate(cc.classify(tables, s, g, cmp, order), "%s", msg)
 	}
@@ -756,6 +829,32 @@ func (cc *caseCtx) compare(mode, how string, w *compact.World, datas [][]byte, u
 		out += ":ok"
 	}
 	cc.r.AddOutcome(out)
+}
+
+// filesWithBlock counts the files that get a feature block for the type and
+// namespace of id: files with a feature of that type and namespace and, for
+// points, files whose paths or relations mention a point of the namespace.
+func (cc *caseCtx) filesWithBlock(id b6.FeatureID) int {
+	n := 0
+	for _, f := range cc.files {
+		has := false
+		for _, x := range f {
+			if x.ID.Type == id.Type && x.ID.Namespace == id.Namespace {
+				has = true
+			}
+			if id.Type == b6.FeatureTypePoint && (x.Kind == wk.KPath || x.Kind == wk.KRelation) {
+				for _, r := range x.Refs() {
+					if r.Type == b6.FeatureTypePoint && r.Namespace == id.Namespace {
+						has = true
+					}
+				}
+			}
+		}
+		if has {
+			n++
+		}
+	}
+	return n
 }
 
 func (cc *caseCtx) fileOf(id b6.FeatureID) int {
@@ -825,10 +924,8 @@ func (cc *caseCtx) classify(tables, section, got, want string, order []int) stri
 			return "FindRelationsByFeature:" + typ + ":" + panicked + tables
 		case how == "missing" && missingElsewhere && !missingSameFile && id.Type != b6.FeatureTypePoint:
 			return "FindRelationsByFeature:" + typ + ":relation-in-another-file-than-its-member(no-back-reference-stored)"
-		case how == "missing" && missingElsewhere && !missingSameFile:
-			return "FindRelationsByFeature:point:relation-in-another-file-than-the-point"
-		case how == "missing":
-			return "FindRelationsByFeature:" + typ + ":relation-in-the-same-file-not-returned" + tables
+		case how == "missing" && cc.filesWithBlock(id) >= 2:
+			return "FindRelationsByFeature:" + typ + ":missing:member-type-and-namespace-has-blocks-in-several-files"
 		}
 		return "FindRelationsByFeature:" + typ + ":" + how + tables
 	case "areas":
@@ -850,7 +947,7 @@ func (cc *caseCtx) classify(tables, section, got, want string, order []int) stri
 	case "has":
 		return "HasFeatureWithID:" + typ + ":" + where + ":got-" + firstWord(got) + tables
 	case "byid-has":
-		return "FeaturesByID.HasFeatureWithID:" + typ + ":" + where + ":got-" + firstWord(got) + tables
+		return "FeaturesByID.HasFeatureWithID:" + typ + ":" + where + ":got-" + firstWord(got)
 	case "loc":
 		if got == "err" {
 			how = "not-found"
@@ -918,14 +1015,16 @@ func main() {
 	}
 	kit.Main(&kit.Check{
 		ID: "C17", Level: "exploration",
-		Rule: "fixed list of worldkit menu worlds (valid as given) x ID schemes x every set partition of the world's features into 2 or 3 files (restricted growth strings); per partition: plain builds merged in every order, and overlay builds (BuildOverlayInMemory against the world merged so far) in every build order, merged in every order. Non-trivial: every partition (>= 2 non-empty files); distinct by scheme|world|partition. Oracle: merged dump = reference world of the union of what the files hold (has/feat/loc/find/each) and = single-file compact build of that union (all sections incl. rels/areas/refs/trav); partitions where a build drops a feature (path without its points, area without its path) are compared on the reference sections only.",
+		Rule: "fixed list of worldkit menu worlds (valid as given) x ID schemes x every set partition of the world's features into 2 or 3 files (restricted growth strings); per partition: plain builds merged in every order, and overlay builds (BuildOverlayInMemory against the world merged so far) in every build order that keeps every feature, each merged in every order (build orders that lose a feature: the order of the block labels only, merged in that order). Non-trivial: every partition (>= 2 non-empty files); distinct by scheme|world|partition. Oracle: merged dump = independent model of the union of what the files hold (worldkit reference for has/feat/loc/find/each and FeaturesByID.HasFeatureWithID; direct-membership model for rels/areas of present features) and = single-file compact build of that union (all sections incl. refs/trav); a section is reported when the merged world differs from both. Lossy partitions are compared on the lookup/search sections only.",
 		Assumptions: []string{
 			"what a file holds is decided by worldkit.ValidSubset per file (base points visible to overlay builds); areas need their paths in the same file, as compact.Validator implements",
 			"no ID occurs in two files (undefined in the code: first merged file wins for lookups, EachFeature emits both)",
-			"a section where the single-file compact world itself differs from the reference and the merged world equals the single-file world is counted, not reported (not a merge defect)",
+			"a section where the single-file compact world itself differs from the model and the merged world equals the single-file world is counted, not reported (not a merge defect)",
+			"relations-by-feature and areas-by-point mean direct membership / a path of the area through the point, as one compact file answers (checked on the fly: disagreements of the single-file world with this model are counted)",
+			"deadlines are generous because the machine is shared; the space is sized by CPU time (quick about 8 CPU-minutes under load)",
 			"merging the files of an overlay build in an order other than the build order is a supported use (ReadWorld merges a file list in the order given)",
 		},
-		QuickDeadline: 240e9, ThoroughDeadline: 40 * 60e9, CaseTimeout: 300e9, Chunk: 4,
+		QuickDeadline: 20 * 60e9, ThoroughDeadline: 90 * 60e9, CaseTimeout: 600e9, Chunk: 4,
 		Build: func(tier string) (kit.Space, string) { return buildSpace(tier) },
 	})
 }
